@@ -240,21 +240,6 @@ def r19d(chk, rid='R19.d'):
 def r19e(chk, rid='R19.e'):
     chk.rule(rid, 'flattening fall-backs: _resolve_import keeps the @import rule as it is (target.add(rule); return) when the target was not found, when resolving the nested sheet raises HierarchyRequestErr and when the media wrapper is not allowed; URLs of the imported sheet are rebased with Replacer(rule.href) without touching nested @import rules; a media wrapper is created only for media other than all; resolveImports skips @charset and keeps every other rule in order')
     m = chk.repo.mod(INIT)
-    fn = m.get('_resolve_import')
-    falls = 0
-    for n in ast.walk(fn):
-        body = None
-        if isinstance(n, ast.If) and text(n.test) == 'not rule.hrefFound':
-            body = n.body
-        if isinstance(n, ast.ExceptHandler) and text(n.type) in ('xml.dom.HierarchyRequestErr', 'MediaCombineDisallowed'):
-            body = n.body
-        if body is not None:
-            t = [text(s) for s in body]
-            ok = 'target.add(rule)' in t and t[-1] == 'return' and t.index('target.add(rule)') < len(t) - 1
-            falls += 1
-            chk.ob(rid, INIT, '_resolve_import', f'fall-back `{text(n.test) if isinstance(n, ast.If) else "except " + text(n.type)}` keeps the @import rule and stops', ok, 'the import is neither resolved nor kept')
-    if falls != 3:
-        raise AnalysisError(f'_resolve_import: {falls} fall-backs found (3 expected)')
     _eval_flatten(chk, rid, m)
 
 
@@ -277,7 +262,12 @@ def _eval_flatten(chk, rid, m):
 
     def sheet(*rules):
         sh = Sheet(cssRules=list(rules), href='h', media='m', title='t')
-        sh.add = lambda r: sh.cssRules.append(r)
+
+        def add(r):
+            if getattr(r, 'tag', '') == 'poison':
+                raise _Raise('HierarchyRequestErr')
+            sh.cssRules.append(r)
+        sh.add = add
         return sh
 
     def imp(tag, media, target):
@@ -287,7 +277,8 @@ def _eval_flatten(chk, rid, m):
     A = sheet(imp('A1', 'all', A1), rule('STYLE_RULE', 'a2'))
     B = sheet(rule('COMMENT', 'bc'), rule('STYLE_RULE', 'b1'))
     D = sheet(rule('NAMESPACE_RULE', 'n'), rule('STYLE_RULE', 'd1'))
-    root = sheet(rule('CHARSET_RULE', 'charset'), imp('A', 'all', A), rule('STYLE_RULE', 'r1'), imp('B', 'print', B), imp('C', 'all', None), imp('D', 'print', D), rule('STYLE_RULE', 'r2'))
+    E_ = sheet(rule('STYLE_RULE', 'e1'), rule('STYLE_RULE', 'poison'))  # flattening it is refused (HierarchyRequestErr)
+    root = sheet(rule('CHARSET_RULE', 'charset'), imp('A', 'all', A), rule('STYLE_RULE', 'r1'), imp('B', 'print', B), imp('C', 'all', None), imp('D', 'print', D), imp('E', 'all', E_), rule('STYLE_RULE', 'r2'))
     replaced = []
     comb = m.get('MediaCombineDisallowed._combinable')
 
@@ -321,8 +312,8 @@ def _eval_flatten(chk, rid, m):
 
     got = tags(res)
     want = ['/* START @import "A.css" */', '/* START @import "A1.css" */', 'a1', 'a2', 'r1',
-            '/* START @import "B.css" */', ('@media print', ['bc', 'b1']), 'C', '/* START @import "D.css" */', 'D', 'r2']
-    chk.ob(rid, INIT, 'resolveImports', "the model import tree is flattened in cascade order: @charset dropped, imported groups in place of their @import, a group with media wrapped in @media, the @import kept when the target is missing or cannot be wrapped", got == want, f'result {got}, prescribed {want}')
+            '/* START @import "B.css" */', ('@media print', ['bc', 'b1']), 'C', '/* START @import "D.css" */', 'D', '/* START @import "E.css" */', 'E', 'r2']
+    chk.ob(rid, INIT, 'resolveImports', "the model import tree is flattened in cascade order: @charset dropped, imported groups in place of their @import, a group with media wrapped in @media, the @import kept when the target is missing, cannot be wrapped or cannot be flattened", got == want, f'result {got}, prescribed {want}')
     reb = sorted((rep, ign) for sh, rep, ign in replaced)
     want_reb = sorted((('Replacer', h), True) for h in ('A1.css', 'A.css', 'B.css', 'D.css'))
     chk.ob(rid, INIT, '_resolve_import', 'the URLs of every resolved sheet are rebased once, relative to its import href, nested @import rules untouched', reb == want_reb, f'replaceUrls calls: {reb}')
